@@ -84,6 +84,9 @@ def layouts(pat, old, new, tier, fmt):
                 yield (f"one-line:{ids}:{order}", "several-patterns-on-one-line", [f], [("a.txt", [fp.raw for fp in s])], False)
         f = projgen.build_file("a.txt", s, ("repeat", 2), "ascii", "CRLF", True)
         yield (f"repeat:{ids}", "same-pattern-on-several-lines", [f], [("a.txt", [fp.raw for fp in s])], False)
+        if len(s) == 1 and not s[0].anchor_l:
+            f = projgen.build_file("a.txt", s, "glued", "ascii", "LF", True)
+            yield (f"glued:{ids}", "occurrences-glued-to-a-letter-or-underscore", [f], [("a.txt", [fp.raw for fp in s])], False)
         if len(s) >= 2 and not any(fp.anchor_l or fp.anchor_r for fp in s):
             for order in itertools.permutations(range(len(s))):
                 f = projgen.build_file("a.txt", s, ("one-line+own", order), "ascii", "LF", True)
@@ -224,7 +227,7 @@ def config_reached_indirectly(st, pat, label, old, new, fmt):
             problems.append(f"current_version is {cfgv!r}, announced {o.new_version!r}")
         if not m2 or m2.group(1) != o.new_version:
             problems.append(f"the [project]/[metadata] version line shows {m2.group(1) if m2 else None!r}, announced {o.new_version!r}")
-        if f"ver={o.new_version};" not in after["a.txt"].decode():
+        if f"ver={o.new_version};" not in after["a.txt"].decode("utf-8", "replace"):
             problems.append("a.txt not updated")
         for why in problems:
             st.outcomes["violation"] += 1
@@ -251,7 +254,7 @@ LEGACY_PREAMBLE = {
 }
 
 
-def build_project(pat, old, fmt, files, entries, explicit_cfg, file_state=None, cfg_eol="\n", preamble=False):
+def build_project(pat, old, fmt, files, entries, explicit_cfg, file_state=None, cfg_eol="\n", preamble=False, extra_files=None):
     old_text = M.render(pat.tree, old)
     entries = list(entries)
     if any(e[0] == "README.md" for e in entries):
@@ -267,15 +270,17 @@ def build_project(pat, old, fmt, files, entries, explicit_cfg, file_state=None, 
             "bystander.txt": (old_text + "\n").encode()}
     for f in files:
         tree[f.name] = f.render_old(file_state or old).encode("utf-8")
+    for name, data in (extra_files or {}).items():
+        tree[name] = data  # files NOT named by the configuration (they may look exactly like configured ones)
     return tree, files
 
 
 def run_project(st, pat, label, old, new, fmt, lid, arrangement, files, entries, explicit_cfg, want=("occurrence",), prefix="C03", set_version=None,
-                stale=None, cfg_eol="\n", preamble=False):
+                stale=None, cfg_eol="\n", preamble=False, extra_files=None):
     old_text, new_text = M.render(pat.tree, old), M.render(pat.tree, new)
     if set_version is not None:
         new_text = set_version
-    tree, files = build_project(pat, old, fmt, files, entries, explicit_cfg, file_state=stale[1] if stale else None, cfg_eol=cfg_eol, preamble=preamble)
+    tree, files = build_project(pat, old, fmt, files, entries, explicit_cfg, file_state=stale[1] if stale else None, cfg_eol=cfg_eol, preamble=preamble, extra_files=extra_files)
     # the property excludes surrounding text that itself matches a configured pattern: such projects are not generated
     for f in files:
         for line in f.lines:
